@@ -23,6 +23,7 @@ import DadiVerif.Model.DataDict
    direct1 n cols                           -> ok S pi watterson thetaL tajvar | S pi watterson thetaL tajvar   (direct | via spectrum)
    direct_tajima sqrtC n cols               -> ok Ddirect Dspec
    direct_fst ns mcols                      -> ok direct spec
+   sstate pol mc proj                       -> ok mask            mask of the spectrum after `fs.S()` (generated `sBody` run by `sRun`)
    projw m n i j / chunkidx size p / shapes -> ok … -/
 namespace DadiVerif.Driver.DataDict
 open DadiVerif DadiVerif.Proto DadiVerif.DataDict DadiVerif.Gen.DD
@@ -201,9 +202,12 @@ def handle (toks : List String) : Option String :=
   | ["chunkidx", size, p] => do
       let size ← size.toNat?; let p ← p.toNat?
       some ("ok " ++ toString (chunkIdx size p))
+  | ["sstate", pol, mc, proj] => do
+      let pol ← parseBool pol; let mc ← parseBool mc; let proj ← parseNatList proj
+      some ("ok " ++ showMask proj (sRun proj (fun _ => 0) (maskAt pol mc proj)).live)
   | ["shapes13"] =>
       some ("ok " ++ " ".intercalate ([accumulateShapeOk, foldIffUnpolarized, fromDataDictShapeOk, sShapeOk, keyParseShapeOk,
-        chunkLoopShapeOk, chunkRebuildShapeOk, bootstrapShapeOk, foldMaskShapeOk].map fun (b : Bool) => if b then "1" else "0"))
+        chunkLoopShapeOk, chunkRebuildShapeOk, bootstrapShapeOk, foldMaskShapeOk, statsSelfWrites.isEmpty].map fun (b : Bool) => if b then "1" else "0"))
   | _ => none
 
 end DadiVerif.Driver.DataDict
